@@ -75,7 +75,8 @@ func (h *hist) compare(repo, when string) {
 			h.r.Violation(d.Known+":"+d.Kind, d.String()+" ("+when+")", map[string]any{"history": h.idx, "store": h.kind.String(), "trace": h.w.Trace})
 			continue
 		}
-		if focusKinds[h.focus][d.Kind] {
+		if focusKinds[h.focus][d.Kind] || (h.focus == "C02" && d.Kind == "tag" && d.Want != "" && d.Want != "<nil>") {
+			// (C02 owns a tag of an acknowledged push that no longer resolves to it; a tag that should be gone is C03's)
 			h.viol("state:"+d.Kind+":"+when, d.String()+" ("+when+")")
 		} else {
 			h.bad = true // the model is no longer a sound basis; stop this history silently (another check owns this kind)
@@ -289,6 +290,10 @@ func (h *hist) reads(repo string) {
 			h.r.Count("range_reads", 1)
 			wantCR := fmt.Sprintf("bytes %d-%d/%d", a, a+len(want)-1, L)
 			if rs.Status != 206 || string(rs.Body) != string(want) || rs.H.Get("Content-Range") != wantCR {
+				if _, skew := m.ListingTypes(it.d, it.mt); skew && it.man && strings.HasSuffix(it.url, it.d) && rs.Status == 404 {
+					h.r.Violation("K9:read", fmt.Sprintf("GET %s Range %s (Accept %q %v): status 404; pushed as %q, an acknowledged index lists it under another media type", it.url, spec, hd["Accept"], hm["Accept"], it.mt), map[string]any{"history": h.idx, "store": h.kind.String(), "trace": w.Trace})
+					continue
+				}
 				h.viol("read:range", fmt.Sprintf("GET %s Range %s: status %d, %d bytes, Content-Range %q; want 206, %d bytes, %q", it.url, spec, rs.Status, len(rs.Body), rs.H.Get("Content-Range"), len(want), wantCR))
 			}
 			continue
@@ -298,6 +303,12 @@ func (h *hist) reads(repo string) {
 		h.r.Count("plain_reads", 1)
 		okBody := method == "HEAD" || string(rs.Body) == string(it.b)
 		if rs.Status != 200 || !okBody || rs.H.Get("Content-Length") != fmt.Sprint(L) || rs.H.Get("Docker-Content-Digest") != it.d || (it.man && rs.H.Get("Content-Type") != it.mt) {
+			if _, skew := m.ListingTypes(it.d, it.mt); skew && it.man && strings.HasSuffix(it.url, it.d) && (rs.Status == 404 || (rs.Status == 200 && m.ListedAs(it.d, rs.H.Get("Content-Type")))) {
+				// recorded finding K9: read by digest, the manifest is served under the media type an acknowledged index
+				// lists it with (so a request that accepts only the pushed type finds nothing)
+				h.r.Violation("K9:read", fmt.Sprintf("%s %s (Accept %q %v): status %d, type %q; pushed as %q", method, it.url, hd["Accept"], hm["Accept"], rs.Status, rs.H.Get("Content-Type"), it.mt), map[string]any{"history": h.idx, "store": h.kind.String(), "trace": w.Trace})
+				continue
+			}
 			h.viol("read:plain", fmt.Sprintf("%s %s (Accept %q %v): status %d, %d bytes, Content-Length %s, digest %s, type %q; want 200, %d bytes, %s, %q",
 				method, it.url, hd["Accept"], hm["Accept"], rs.Status, len(rs.Body), rs.H.Get("Content-Length"), vh.Short(rs.H.Get("Docker-Content-Digest")), rs.H.Get("Content-Type"), L, vh.Short(it.d), it.mt))
 		}
@@ -354,7 +365,7 @@ func (h *hist) paging(repo string) {
 		}
 	}
 	// odd values: status 200, valid JSON, sorted duplicate-free subset of the tags greater than last
-	odd := []string{"0", "-1", "-2147483648", "9223372036854775808", "x", "", "1e3", "%00", "00", "1", "2", "3", "1000", "absent", "absent"}
+	odd := []string{"0", "-1", "-2147483648", "9223372036854775808", "9223372036854775807", "9223372036854775806", "-9223372036854775808", "2147483647", "2147483648", "4294967295", "4294967296", "18446744073709551615", "18446744073709551616", "x", "", "1e3", "%00", "00", "1", "2", "3", "1000", "absent", "absent"}
 	lasts := []string{"", "0", "zzzz", "\x00", "%ff"}
 	if len(want) > 0 {
 		t := want[rng.Intn(len(want))]
@@ -421,14 +432,90 @@ func firstLine(s string) string {
 	return s
 }
 
+// churnStep: few keys, many operations - three or four plain manifests and three tags, only index-changing operations
+// (tag, multi-tag, re-tag, push by digest, tag delete, digest delete, the occasional restart), so that orders of
+// entries, duplicates and swap-removes inside the index are reached that a wide universe rarely produces.
+func (h *hist) churnStep(repo string) {
+	w, rng, u := h.w, h.rng, h.w.U
+	switch k := rng.Intn(20); {
+	case k < 10:
+		mm := u.Mans[rng.Intn(len(u.Mans))]
+		tag := u.Tags[rng.Intn(len(u.Tags))]
+		if rng.Intn(6) == 0 {
+			tag = ""
+		}
+		rs, ok := w.PutManifest(repo, mm, tag)
+		h.r.Count("manifest_pushes", 1)
+		if ok && rs.Status == 201 && tag != "" {
+			h.r.Count("tag_writes", 1)
+		}
+		if (rs.Status == 201) != ok || rs.Status >= 500 {
+			h.bad = true
+			h.r.Count("foreign_differences_put_status", 1)
+		}
+	case k < 14:
+		tag := u.Tags[rng.Intn(len(u.Tags))]
+		rs, exp := w.DeleteTag(repo, tag)
+		if exp == 202 {
+			h.r.Count("tag_deletes", 1)
+		}
+		if rs.Status != exp {
+			if h.focus == "C03" {
+				h.viol("delete:tag-status", fmt.Sprintf("DELETE of tag %s answered %d, specification says %d", tag, rs.Status, exp))
+			}
+			h.bad = true
+		}
+	case k < 18:
+		mm := u.Mans[rng.Intn(len(u.Mans))]
+		rs, exp := w.DeleteManifest(repo, mm)
+		if exp == 202 {
+			h.r.Count("digest_deletes", 1)
+		}
+		if exp != 0 && rs.Status != exp {
+			if h.focus == "C03" {
+				h.viol("delete:digest-status", fmt.Sprintf("DELETE of manifest %s answered %d, specification says %d", mm.Name, rs.Status, exp))
+			}
+			h.bad = true
+		}
+	case k < 19:
+		h.restart()
+	default:
+		if h.focus == "C02" {
+			h.reads(repo)
+		} else {
+			h.paging(repo)
+		}
+	}
+}
+
 func runHistory(r *vh.Run, focus string, i int) {
 	rng := r.Rand(i)
 	kind := []vh.StoreKind{vh.Mem, vh.Dir}[i%2]
-	uo := vh.UOpts{Algs: i%5 == 0, Docker: (i/2)%2 == 0, Tag: fmt.Sprint(i)}
+	uo := vh.UOpts{Algs: i%5 == 0, Docker: (i/2)%2 == 0, BareMT: i%4 == 1, Tag: fmt.Sprint(i)}
 	if focus == "C03" {
 		uo.Tags = grammarTags(rng)
+	} else {
+		uo.MTSkew = i%4 == 3
 	}
+	churn := i%3 == 2 // a third of the histories (i%2 picks the store, so both stores)
 	u := vh.GenUniverse(rng, uo)
+	if churn {
+		// keep three or four manifests that stand on their own (no subject, no children) and three tags
+		var keep []*vh.Man
+		for _, mm := range u.Mans {
+			if !mm.Index && mm.Subject == "" && len(keep) < 3+i%2 {
+				keep = append(keep, mm)
+			}
+		}
+		if len(keep) >= 2 {
+			u.Mans = keep
+			if len(u.Tags) > 3 {
+				u.Tags = u.Tags[:3]
+			}
+		} else {
+			churn = false
+		}
+	}
 	root := ""
 	if kind != vh.Mem {
 		root = r.TempDir("seq")
@@ -444,12 +531,23 @@ func runHistory(r *vh.Run, focus string, i int) {
 		}
 	}
 	nops := 25 + rng.Intn(30)
+	if churn {
+		for _, b := range u.Blobs {
+			h.w.PushBlob("r", b)
+		}
+		nops = 100 + rng.Intn(80)
+		r.Count("churn_histories", 1)
+	}
 	for op := 0; op < nops && !h.bad; op++ {
 		repo := "r"
-		if rng.Intn(6) == 0 {
+		if rng.Intn(6) == 0 && !churn {
 			repo = "r/n"
 		}
-		h.step(repo)
+		if churn {
+			h.churnStep(repo)
+		} else {
+			h.step(repo)
+		}
 		r.Count("operations", 1)
 		if !h.bad {
 			h.compare(repo, "after an operation")
@@ -569,7 +667,7 @@ func main() {
 		focus = "C02"
 	}
 	_ = time.Now
-	n := r.N(160, 6000)
+	n := r.N(240, 8000)
 	nl := 0
 	if focus == "C02" {
 		nl = r.N(24, 600)
@@ -589,5 +687,5 @@ func main() {
 	} else {
 		r.Require("pagination_walks", 20)
 	}
-	r.Finish("random sequential histories (25-55 operations: blob push, manifest push by tag/digest, re-push, tag move, tag delete, digest delete, blob delete, restart, reads) on a universe of ~5 blobs, ~10 manifests, 3-5 tags, 2 repositories (one nested), memory and directory stores; full observable snapshot compared with the reference model after every operation; a case is one history, distinct = histories with distinct operation traces that ran to the end", "histories", "histories_distinct")
+	r.Finish("random sequential histories (25-55 operations: blob push, manifest push by tag/digest, re-push, tag move, tag delete, digest delete, blob delete, restart, reads) on a universe of ~5 blobs, ~10 manifests, 3-5 tags, 2 repositories (one nested), memory and directory stores; a third of the histories are churn histories (3-4 plain manifests, 3 tags, 100-180 index-changing operations only); full observable snapshot compared with the reference model after every operation; a case is one history, distinct = histories with distinct operation traces that ran to the end", "histories", "histories_distinct")
 }
